@@ -324,9 +324,15 @@ theorem core_finish (i : Inst) (h : WF i) (s : State) (c : Core i s) (g : Bool) 
   · exact core_setReward i s c _
   · exact core_updateMask i _ (core_moveNext i h s c)
 
+/-- **Obligation on the extracted source key**: `_step` books on `td["machine_idx"]`. -/
+theorem bookMachine_eq (s : State) : bookMachine s = s.midx := rfl
+
+/-- **Obligation on the extracted slice bound**: the makespan ignores the dummy (wait) column. -/
+theorem rewardCols_eq (i : Inst) : rewardCols i = i.J := rfl
+
 theorem apply_sched (i : Inst) (s : State) (a m j : Nat) :
     (apply i s a).sched m j = if m = s.midx ∧ j = a then (s.time : Int) else s.sched m j := by
-  simp only [apply, upd]
+  simp only [apply, upd, bookMachine_eq]
   by_cases hm : m = s.midx
   · by_cases hj : j = a
     · simp [hm, hj]
@@ -669,16 +675,29 @@ theorem le_maxI : ∀ {l : List Int} {x : Int}, x ∈ l → x ≤ maxI l
 /-- entry of `end_schedule` -/
 def endAt (i : Inst) (s : State) (m j : Nat) : Int := s.sched m j + (i.dur j m : Int)
 
+theorem endMax_eq (i : Inst) (s : State) : endMax i s =
+    maxI ((List.range (MT i)).map (fun m =>
+      maxI ((List.range i.J).map (fun j => s.sched m j + (i.dur j m : Int))))) := by
+  unfold endMax
+  rw [rewardCols_eq]
+  congr 1
+  apply List.map_congr_left
+  intro m _
+  congr 1
+  apply List.map_congr_left
+  intro j hj
+  simp [jobDur, List.mem_range.mp hj]
+
 theorem endAt_le_endMax (i : Inst) (s : State) {m j : Nat} (hm : m < MT i) (hj : j < i.J) :
     endAt i s m j ≤ endMax i s := by
-  unfold endMax
+  rw [endMax_eq]
   have h1 : endAt i s m j ≤ maxI ((List.range i.J).map (fun j => s.sched m j + (i.dur j m : Int))) :=
     le_maxI (List.mem_map.mpr ⟨j, List.mem_range.mpr hj, rfl⟩)
   exact Int.le_trans h1 (le_maxI (List.mem_map.mpr ⟨m, List.mem_range.mpr hm, rfl⟩))
 
 theorem endMax_attained (i : Inst) (s : State) (hM : 0 < MT i) (hJ : 0 < i.J) :
     ∃ m j, m < MT i ∧ j < i.J ∧ endMax i s = endAt i s m j := by
-  unfold endMax
+  rw [endMax_eq]
   have hne : (List.range (MT i)).map (fun m =>
       maxI ((List.range i.J).map (fun j => s.sched m j + (i.dur j m : Int)))) ≠ [] := by
     intro h; have := congrArg List.length h; simp at this; omega
@@ -762,7 +781,7 @@ theorem live_reset (i : Inst) (h : WF i) : Live i (reset i) where
   core := core_reset i h
   fresh := by
     intro a
-    simp only [reset, updateMask, stageOf, Nat.zero_div]
+    simp only [reset, updateMask, stageOf, Nat.zero_div, Params.ffspInitWaitMasked]
     by_cases ha : a < i.J
     · simp [ha]
     · by_cases ha2 : a = i.J
